@@ -377,7 +377,7 @@ func crashCmd(out *cq.Out, seed uint64, tier string) {
 		port := freePorts(1)[0]
 		desc := map[string]interface{}{"seed": seed, "kind": "raft-sigkill", "trial": t, "raft_snapshot_midway": t%2 == 1}
 		killAfter := time.Duration(1500+rng.Intn(1500)) * time.Millisecond
-		o1, _ := runChild(out, childPlan{Dir: dir, Tag: fmt.Sprintf("rk%d", t), Entries: 100000, Seed: seed + uint64(t), Raft: true, Port: port, SnapAfter: (t % 2) * (3 + rng.Intn(20))}, killAfter)
+		o1, _ := runChild(out, childPlan{Dir: dir, Tag: fmt.Sprintf("rk%d", t), Entries: 100000, Seed: seed + uint64(t), Raft: true, Port: port, SnapAfter: (t % 2) * (3 + rng.Intn(5))}, killAfter)
 		acks := readAcks(dir + "/acks.jsonl")
 		if strings.Contains(o1, "STARTERR") || strings.Contains(o1, "NOLEADER") || len(acks) == 0 {
 			out.Count("raft_kill_skipped_infrastructure", 1)
